@@ -162,6 +162,16 @@ func (e *Enc) scanContract(ms *modSet, fc *FuncContract) {
 					ms.heaps["G_"+id.Name] = true
 					continue
 				}
+				if id.Name == "mapc" {
+					for n := range e.base {
+						if strings.HasPrefix(n, "MD_") || strings.HasPrefix(n, "MV_") {
+							ms.heaps[n] = true
+						}
+					}
+					ms.heaps["ML"] = true
+					ms.heaps["MD_(_ BitVec 8)"] = true
+					continue
+				}
 			}
 			e.addScalarHeaps(ms)
 		default:
